@@ -174,7 +174,8 @@ CHECKS["C10"] = {
               "client with every selector, with and without a client TLS configuration, every offered scheme and credential class, (c) rapid-generated scripts: the "
               "Authenticate callback must never run, and no authenticating/established session or client credential may appear in cleartext, while the server transport "
               "is unencrypted (observed on the callback log, the scripted peer, and the raw byte capture of both directions). "
-              "The compression lists are drawn too: the usual one, one with an option the transport lacks, and one that shares nothing with what the transport supports."),
+              "The compression lists are drawn too: the usual one, one with an option the transport lacks, and one that shares nothing with what the transport supports. "
+              "Plus the ServerBuilder entry point over the library's loopback TCP listener with a TLS configuration: EncryptionOptions(TLS), drawn CompressionOptions, other builders of the same process configured with none before and after, and a raw peer that chooses none, chooses tls without performing the handshake, or skips negotiation: no authenticating / established session in cleartext, no authenticator call, no Established callback."),
     "note": "Real TLS (crypto/tls) runs over the in-memory connection; the cleartext/TLS boundary is read off the captured bytes.",
     "technique": "exhaustive enumeration of configurations x client behaviours + rapid scripts, with an invariant over callback log and captured wire bytes, in virtual time",
     "rule": ("every case is non-trivial by construction (policy excludes none, transport can do TLS); enumerated: 6 scheme lists x 2 registration modes x 2 entry points x scripts "
@@ -187,6 +188,7 @@ CHECKS["C10"] = {
         {"test": "TestC10Pair", "kind": "plain", "timeout": (300, 1500)},
         {"test": "TestC10Enum", "kind": "plain", "shards": 8, "timeout": (300, 3000)},
         {"test": "TestC10", "kind": "rapid", "shards": 6, "checks": (2000, 40000), "timeout": (300, 3000)},
+        {"test": "TestC10Builder", "kind": "rapid", "shards": (2, 4), "checks": (40, 600), "timeout": (300, 3000), "gomaxprocs": [4, 8, 2, 16], "shrink": (10, 40)},
     ],
 }
 
